@@ -408,14 +408,35 @@ func afterC08(w *World) {
 		if c.InvokeSeq == 0 || c.DoneSeq == 0 || c.Err == nil || c.CtxEndSeq == 0 || c.CtxEndSeq > c.DoneSeq {
 			continue
 		}
-		if errors.Is(c.Err, gorums.Incomplete) {
-			continue
-		}
 		cerr := c.ctx.Err()
 		ok := cerr != nil && errors.Is(c.Err, cerr)
-		if !ok && c.Info.Kind == "rpc" {
-			// an RPC may also return the node's own error if that arrived first
-			continue
+		if !ok && !w.mgrs[c.Mgr].closed && cerr != nil {
+			// The call may instead report what its nodes reported, if that arrived first: an RPC
+			// the node's own error, a quorum-type call Incomplete with one entry per failed node.
+			// But then every such node error must be a genuine one - a gRPC status (a handler's
+			// error, or Unavailable for a broken connection) or the context's own error - and not
+			// something made up for a request that merely was not sent in time.
+			genuine := func(text string) bool {
+				return statusRe.MatchString(text) || strings.Contains(text, cerr.Error())
+			}
+			switch {
+			case c.Info.Kind == "rpc":
+				if genuine(c.ErrText) {
+					continue
+				}
+			case errors.Is(c.Err, gorums.Incomplete):
+				all := true
+				for _, e := range parseNodeErrors(c.ErrText) {
+					if !genuine(e.Text) {
+						all = false
+					}
+				}
+				if all {
+					continue
+				}
+			}
+		} else if !ok {
+			continue // the manager was closed: C12's business
 		}
 		w.rule("C08.error-matches-context", ok)
 		if !ok {
@@ -464,6 +485,20 @@ func genC09(g *gen) {
 	c := g.cfg
 	c.NMgrs = pick(g.r, 1, 1, 2)
 	g.genConfigs(true)
+	if g.chance(0.4) {
+		// calls also end by node errors: connections are reset and servers crash and come
+		// back while calls are in flight (all servers are up and reachable again in settle)
+		c.FaultFree = false
+		for k := g.r.IntN(3); k >= 0; k-- {
+			si := g.r.IntN(c.NServers)
+			at := 30 + g.r.IntN(500)
+			if g.chance(0.6) {
+				g.prog.Faults = append(g.prog.Faults, &Fault{Kind: "reset", Srv: si, Mgr: -1, AtStep: at})
+			} else {
+				g.prog.Faults = append(g.prog.Faults, &Fault{Kind: "crash", Srv: si, Mgr: -1, AtStep: at}, &Fault{Kind: "restart", Srv: si, AtStep: at + 1 + g.r.IntN(200)})
+			}
+		}
+	}
 	pool := stubsOf("rpc", "qc", "async", "corr", "cstream", "mcast", "ucast")
 	nThreads := 1 + g.r.IntN(4)
 	for t := 0; t < nThreads; t++ {
